@@ -280,8 +280,11 @@ def compact_bound(chk, dprog, cfg):
         mb = dprog.body(maps[0])
         rt = mb.return_term()
         F = ("arg", 2, mb.names.get(2))
-        if rt[0] == "agg" and rt[1] == "tuple" and len(rt[3]) == 2:
+        if rt[0] == "agg" and rt[1] in ("tuple", "adt") and len(rt[3]) == 2:
+            # a pair: a tuple or a two-member private struct, in either member order
             t0, t1 = rt[3]
+            if is_call(t0, cd.D + "utils::is_compact", nargs=1):
+                t0, t1 = t1, t0
             ok = is_call(t0, "clone", nargs=1) and paths.access_path(mb, t0[2][0]) is not None and paths.norm(paths.access_path(mb, t0[2][0])[1]).endswith(".ty") \
                 and is_call(t1, cd.D + "utils::is_compact", nargs=1) and unref(t1[2][0]) == F
             detail = "maps each member to %s" % path_str(rt)[:100]
